@@ -467,6 +467,7 @@ func cutInit(truth *fragbuild.Truth, sidx2 map[int]fragbuild.BoxInfo) {
 		}
 	}
 	mv(truth.TopSidx)
+	mv(truth.TopSidx2)
 	mv(truth.Mfra)
 	for k, b := range sidx2 {
 		b.Offset -= d
@@ -866,6 +867,9 @@ func evalSegWith(c *segCase, st *stats, keepPrft bool) *harness.Fail {
 	if truth.TopSidx != nil {
 		boxes = append(boxes, obox{in: *truth.TopSidx, seg: -1, frag: -1, role: "topsidx"})
 	}
+	if truth.TopSidx2 != nil {
+		boxes = append(boxes, obox{in: *truth.TopSidx2, seg: -1, frag: -1, role: "topsidx"})
+	}
 	g := 0
 	for si := range truth.Segments {
 		sgt := &truth.Segments[si]
@@ -1050,7 +1054,10 @@ func evalSegWith(c *segCase, st *stats, keepPrft bool) *harness.Fail {
 	if truth.TopSidx != nil {
 		wantTop = 1
 	}
-	if len(f.Sidxs) != wantTop || (f.Sidx != nil) != (wantTop == 1) {
+	if truth.TopSidx2 != nil {
+		wantTop = 2
+	}
+	if len(f.Sidxs) != wantTop || (f.Sidx != nil) != (wantTop >= 1) {
 		return harness.Failf("C12|"+dec+"|top-level sidx not kept on the file", "File.Sidxs %d, file has %d; %s", len(f.Sidxs), wantTop, describe())
 	}
 	if (f.Mfra != nil) != (truth.Mfra != nil) {
@@ -1092,6 +1099,11 @@ func evalSegWith(c *segCase, st *stats, keepPrft bool) *harness.Fail {
 		}
 	}
 
+	if truth.TopSidx2 != nil {
+		// an index split over two chained sidx boxes: grouping (1) and re-encoding (2) are judged; which of the two
+		// boxes UpdateSidx is to maintain is not defined by the statement
+		return nil
+	}
 	// ---- (3) UpdateSidx + Encode
 	// a segment in which the reference track lasts 2^32 ticks or more cannot be indexed
 	segDurBeyond32 := func() bool {
@@ -1618,6 +1630,10 @@ func genCase(t *rapid.T) (segCase, string) {
 		// a free box between the index and the indexed material, announced in first_offset
 		lay.TopSidxGap = rapid.SampledFrom([]int{8, 9, 16, 24, 100}).Draw(t, "topSidxGapSize")
 	}
+	if lay.TopSidx && len(nFrags) >= 2 && rapid.IntRange(0, 4).Draw(t, "topSidxSplit") == 0 {
+		// the index as two chained sidx boxes (the second skips the segments of the first in first_offset)
+		lay.TopSidxSplit = rapid.IntRange(1, len(nFrags)-1).Draw(t, "topSidxSplitAt")
+	}
 	lay.SeqStart = rapid.SampledFrom([]uint32{0, 1, 1, 100, 0xfffffffe}).Draw(t, "seqStart")
 	f := 0
 	for _, nf := range nFrags {
@@ -1874,6 +1890,7 @@ func classify(c *segCase, mode string) (bool, []string) {
 	add(c.moof(), "flag-DecStartOnMoof", "")
 	add(c.Layout.TopSidx, "sidx-existing", "sidx-absent")
 	add(c.Layout.TopSidxGap > 0, "sidx-existing-with-first-offset", "")
+	add(c.Layout.TopSidxSplit > 0, "top-level-index-split-over-two-sidx", "")
 	add(c.AddIfNotExists, "addIfNotExists", "addIfNotExists-false")
 	add(c.NonZeroEPT, "nonZeroEPT", "zeroEPT")
 	add(c.Layout.TopSidx || c.AddIfNotExists, "sidx-in-output", "sidx-not-in-output")
